@@ -9,6 +9,10 @@ kinds of cases
              implementation X, L, flag: every width / form factor / phase-space node carries X, L, d
   memo     : _create_matrices results are the same objects with the same srepr after formulate calls
   bw       : one channel, one pole against relativistic_breit_wigner(_with_ff)
+  history  : RelativisticPVector.formulate(phsp_factor=f1) then (phsp_factor=f2) in one process with f1, f2 plain
+             FUNCTIONS of the same qualified name (closures of one factory, lambdas of one comprehension): every
+             width carries the caller's callable (identity), only the caller's phase-space class occurs after
+             unfolding the widths, and the second result equals the F-vector at the caller's K, P, rho
 
 usage: search_C10.py <seed> <n> | --replay <file>
 """
@@ -109,7 +113,7 @@ def f_lambda(rel: bool, n: int, hat: bool):
     return _lam[key]
 
 
-def run_residual(c):
+def run_residual(c, fulls_given=None, label=None):
     n, rel = c["n"], c["rel"]
     sub = values(c)
     fails = []
@@ -162,9 +166,12 @@ def run_residual(c):
         if np.abs(Fv - sq * Fh).max() > tol:
             fails.append(("f_not_sqrt_rho_fhat", f"|F - sqrt(rho) Fhat| = {np.abs(Fv - sq * Fh).max():.3e}"))
         refs = [({"return_f_hat": False}, Fv), ({"return_f_hat": True}, Fh)]
-    if c.get("full"):
-        for fl, ref in refs:
-            if rel:
+    if c.get("full") or fulls_given is not None:
+        label = label or f"formulate(parametrize=True, phsp_factor={c['phsp']}, L={c['L']})"
+        for k, (fl, ref) in enumerate(refs):
+            if fulls_given is not None:
+                full = fulls_given[k]
+            elif rel:
                 full = RelativisticPVector.formulate(n, c["npoles"], phsp_factor=phsp, angular_momentum=c["L"],
                                                      meson_radius=d, **fl)
             else:
@@ -173,7 +180,7 @@ def run_residual(c):
                 v = num(expand_sums(full[i]).xreplace(sub))
                 if abs(v - ref[i]) > tol:
                     fails.append(("formulate_parametrized_differs/" + ("rel" if rel else "nr"),
-                                  f"formulate(parametrize=True, phsp_factor={c['phsp']}, L={c['L']})[{i}] = {v} but the F-vector at the "
+                                  f"{label}[{i}] = {v} but the F-vector at the "
                                   f"caller's K, P, rho is {ref[i]}"))
     return fails
 
@@ -280,7 +287,71 @@ def run_bw(c):
     return fails
 
 
-RUN = {"residual": run_residual, "atoms": run_atoms, "memo": run_memo, "bw": run_bw}
+PHSP_ONLY_CLASSES = {k: v for k, v in ALL_PHSP.items() if k != "marker"}
+
+
+def make_phsp(cls):
+    """A phase-space factor given as a plain FUNCTION (PhaseSpaceFactorProtocol): every closure made
+    here has the same __module__ and __qualname__ but its own behaviour."""
+    def rho(s, m_a, m_b):
+        return cls(s, m_a, m_b)
+    return rho
+
+
+def make_lambdas(classes):
+    return [lambda s, m_a, m_b, _c=c: _c(s, m_a, m_b) for c in classes]
+
+
+def scan_history(expr, f, cls, what):
+    bad, n_edw = [], 0
+    kinds = tuple(PHSP_ONLY_CLASSES.values())
+    for node in sp.preorder_traversal(expr):
+        if isinstance(node, EnergyDependentWidth):
+            n_edw += 1
+            if node.phsp_factor is not f:
+                bad.append(("foreign_callable_in_width/" + what,
+                            f"EnergyDependentWidth.phsp_factor is {node.phsp_factor!r}, not the caller's {f!r}"))
+            inner = node.evaluate()
+        elif isinstance(node, kinds):
+            inner = node
+        else:
+            continue
+        for sub in sp.preorder_traversal(inner):
+            if isinstance(sub, kinds) and type(sub) is not cls:
+                bad.append(("foreign_phsp_after_unfolding/" + what,
+                            f"{type(sub).__name__} occurs in a result formulated with a function returning {cls.__name__}"))
+    if n_edw == 0:
+        bad.append(("no_width_nodes/" + what, "no EnergyDependentWidth node in a relativistic result"))
+    return bad
+
+
+def run_history(c):
+    """RelativisticPVector.formulate(phsp_factor=f1) then (phsp_factor=f2) in ONE process, f1 and f2 different
+    functions with the same qualified name, identical remaining arguments: the second result is the caller's."""
+    classes = [PHSP_ONLY_CLASSES[c["first"]], PHSP_ONLY_CLASSES[c["phsp"]]]
+    fs = [make_phsp(k) for k in classes] if c["style"] == "closure" else make_lambdas(classes)
+    kw = dict(angular_momentum=c["L"], meson_radius=F(c["d"]))
+    res = []
+    for f in fs:
+        res.append([RelativisticPVector.formulate(c["n"], c["npoles"], phsp_factor=f, return_f_hat=False, **kw),
+                    RelativisticPVector.formulate(c["n"], c["npoles"], phsp_factor=f, return_f_hat=True, **kw)])
+    fails = []
+    for k, (f, cls) in enumerate(zip(fs, classes)):
+        for m in res[k]:
+            for e in m:
+                fails += scan_history(e, f, cls, f"call{k + 1}")
+    label = (f"formulate(phsp_factor=<function returning {c['phsp']}>, L={c['L']}) called after "
+             f"formulate(phsp_factor=<function of the same name returning {c['first']}>)")
+    fails += run_residual(dict(c, kind="residual", rel=True, full=False), fulls_given=res[1], label=label)
+    seen, out = set(), []
+    for b in fails:
+        if b[0] not in seen:
+            seen.add(b[0])
+            out.append(b)
+    return out
+
+
+RUN = {"residual": run_residual, "atoms": run_atoms, "memo": run_memo, "bw": run_bw, "history": run_history}
 
 
 def gen_cases(seed: int, n: int):
@@ -294,6 +365,25 @@ def gen_cases(seed: int, n: int):
     n_atoms = len(atoms_grid) if thorough else 36
     for cn, ph, L, fl, nn in atoms_grid[:n_atoms]:
         out.append({"kind": "atoms", "cls": cn, "phsp": ph, "L": L, "flag": fl, "n": nn, "npoles": rng.choice([1, 2, 3])})
+    for i in range(24 if thorough else 4):
+        nch = 1 + i % 2
+        npoles = rng.choice([1, 2])
+        ma = [round(rng.uniform(0.1, 0.6), 6) for _ in range(nch)]
+        mb = [round(rng.uniform(0.1, 0.6), 6) for _ in range(nch)]
+        thr = max(a + b for a, b in zip(ma, mb))
+        while True:
+            m = [round(thr * 1.08 + rng.uniform(0.05, 1.6), 6) for _ in range(npoles)]
+            s = round((thr * 1.05 + rng.uniform(0.02, 1.8)) ** 2, 6)
+            if all(abs(s - x * x) > 0.12 for x in m):
+                break
+        out.append({"kind": "history", "style": "closure" if i % 4 < 2 else "lambda", "n": nch, "npoles": npoles,
+                    "first": ["PhaseSpaceFactorSWave", "EqualMassPhaseSpaceFactor", "PhaseSpaceFactorComplex"][i % 3],
+                    "phsp": list(REAL_PHSP)[(i // 2) % 2], "L": rng.choice([0, 1, 2]),
+                    "d": round(rng.uniform(0.5, 3.0), 6), "s": s, "m": m, "ma": ma, "mb": mb,
+                    "beta": [round(rng.uniform(0.2, 2.0), 6) for _ in range(npoles)],
+                    "Gamma": [[round(rng.uniform(0.05, 0.6), 6) for _ in range(nch)] for _ in range(npoles)],
+                    "gamma": [[round(rng.uniform(0.3, 1.5) * rng.choice([1, 1, -1]), 6) for _ in range(nch)]
+                              for _ in range(npoles)]})
     out.append({"kind": "memo", "L": rng.choice([1, 2, 3]), "d": 2, "npoles": rng.choice([1, 2])})
     for i in range(n):
         rel = i % 3 != 0
